@@ -44,7 +44,7 @@ LEVEL_NOTE = ("Partial: what is proved is the control flow around the proxies. T
               "live routing/listening behaviour are observed only: cluster hashes of QueryClustersHashes vs ConfigState::hash_state of the "
               "same sequence, TCP connect probes on every listener address after every listener verb, HTTP GET probes through an "
               "activated HTTP listener to scripted backends (prediction: longest matching prefix frontend of the main process' state, "
-              "its cluster's backends); HTTPS/TCP/UDP data paths are not probed. Probes stop claiming anything about an address or about "
+              "its cluster's backends); the other data paths get a few probes each: a TLS handshake + GET through an activated HTTPS listener (a certificate of the pool is served only while the main process' view holds it, a name's own certificate is served when it is held, the routed cluster as for HTTP), a request relayed through an activated TCP listener (the backend that answers), a datagram through an activated UDP listener from a source address of its own (flows are keyed by the client address), also across Deactivate/Activate. Certificate selection itself is C17's subject, UDP flow semantics C19's. Probes stop claiming anything about an address or about "
               "routing once the main process and the worker disagree on a request's acceptance (the main process would not have "
               "forwarded it, or would have told its client about the failure) or after ReturnListenSockets. ConfigState::dispatch itself is C05-C07's subject; here it is "
               "an abstract function shared by both sides. Two SoftStop requests: the second overwrites shutting_down, the first never gets its "
@@ -536,6 +536,16 @@ def lifecycle_cases():
         out.append(Case("life%d" % k, ops, {}))
     ops = [["worker"], ["send", "AddUdpListener", 0], ["send", "AddUdpListener", 0], ["send", "RemoveListener", 3], ["send", "AddUdpListener", 0], ["view"], ["end"]]
     out.append(Case("life3", ops, {}))
+    def seq(cid, items):
+        out.append(Case(cid, [["worker"]] + [["send", v, k] for v, k in items] + [["view"], ["end"]], {}))
+    # the other data paths: TLS (certificate served + routed cluster), TCP relay, UDP datagrams
+    seq("data_tls", [("AddHttpsListener", 0), ("ActivateListener", 1), ("AddCertificate", 0), ("AddCluster", 0), ("AddBackend", 0),
+                     ("AddHttpsFrontend", 0), ("AddCertificate", 1), ("AddCluster", 1), ("AddBackend", 1), ("AddHttpsFrontend", 1),
+                     ("RemoveBackend", 0), ("RemoveHttpsFrontend", 1), ("DeactivateListener", 1), ("ActivateListener", 1)])
+    seq("data_tcp", [("AddTcpListener", 0), ("AddCluster", 0), ("AddBackend", 0), ("AddTcpFrontend", 0), ("ActivateListener", 2),
+                     ("RemoveBackend", 0), ("AddBackend", 3), ("DeactivateListener", 2), ("ActivateListener", 2), ("RemoveTcpFrontend", 0)])
+    seq("data_udp", [("AddUdpListener", 0), ("AddCluster", 1), ("AddBackend", 1), ("AddUdpFrontend", 1), ("ActivateListener", 3),
+                     ("DeactivateListener", 3), ("ActivateListener", 3), ("RemoveBackend", 1), ("AddBackend", 4), ("RemoveListener", 3)])
     hc = [["worker"]]
     for k in (0, 3, 6, 1, 4, 7):
         hc += [["send", "AddCluster", k], ["view"]]
